@@ -287,7 +287,9 @@ theorem ctorSel_cases (es : List (Nat × Nat)) (V : Nat) (sparse : Bool) (mode :
   cases es <;> simp
 
 /-- **`GMRFVectorModel(X, graph, mode=…, sparse=False, bias=…)` is the model's `build`** (dense storage, exact data,
-`n_components=None`): it raises `LinAlgError` exactly when the model finds a singular covariance and otherwise sets the
+`n_components=None`), IN EXACT ARITHMETIC: it raises `LinAlgError` exactly when the model finds a singular covariance
+(floating-point `np.linalg.inv` raises only on an exact zero pivot; ill-conditioned data are outside the property's
+quantifier and are rejected by the generator) and otherwise sets the
 attributes of `expectedVec` with the model's dense precision -/
 theorem vecInit_dense_eq_build (m : Mode) (k V : Nat) (X : Mat) (es : List (Nat × Nat)) (bias : Bool)
     (svd : Mat → Option (Mat × List Rat × Mat)) (argsort : List Nat → List Nat) (ns : Option Nat) (dtype : DType)
